@@ -29,8 +29,12 @@ type rcase struct {
 	DP   bool    `json:"dp,omitempty"`
 	Fr   float64 `json:"fraction,omitempty"`
 	Mg   float64 `json:"margin,omitempty"`
-	X    float64 `json:"x,omitempty"`
-	Y    float64 `json:"y,omitempty"`
+	X    float64 `json:"-"`
+	Y    float64 `json:"-"`
+	XB   uint64  `json:"x_bits,omitempty"` // float64 bits (±Inf cannot be written as a JSON number)
+	YB   uint64  `json:"y_bits,omitempty"`
+	XT   string  `json:"x_text,omitempty"`
+	YT   string  `json:"y_text,omitempty"`
 	P    float32 `json:"p,omitempty"`
 	XD   int64   `json:"xd,omitempty"`
 	YD   int64   `json:"yd,omitempty"`
@@ -63,8 +67,19 @@ func nearest(r *big.Rat) float64 {
 }
 
 // monitor evaluates the rounded-arithmetic clauses on the real code. Returns the code's verdict.
-func (c rcase) monitor(ms *monitors) bool {
+// sync fills the JSON form from the values (before reporting) or the values from the JSON form (replay).
+func (c rcase) sync() rcase {
+	if c.XB != 0 || c.YB != 0 {
+		c.X, c.Y = math.Float64frombits(c.XB), math.Float64frombits(c.YB)
+	}
+	c.XB, c.YB = math.Float64bits(c.X), math.Float64bits(c.Y)
+	c.XT, c.YT = fmt.Sprint(c.X), fmt.Sprint(c.Y)
 	c.Op = "fround"
+	return c
+}
+
+func (c rcase) monitor(ms *monitors) bool {
+	c = c.sync()
 	got := c.run(c.X, c.Y, c.XD, c.YD)
 	back := c.run(c.Y, c.X, c.YD, c.XD)
 	self := c.run(c.X, c.X, c.XD, c.XD)
@@ -80,6 +95,13 @@ func (c rcase) monitor(ms *monitors) bool {
 		ms.symrefl.Violate("C16/"+name+"/rounding/not-reflexive", "eq(x,x) is false for non-negative tolerances", c, "true", "false")
 	}
 	if c.DP {
+		return got
+	}
+	if !finite(c.X) || !finite(c.Y) {
+		// nothing is a finite distance from an infinity (NaN is not generated here)
+		if want := c.X == c.Y; got != want {
+			ms.tol.Violate("C16/FloatValueApprox/rounding/infinite-value", "an infinity is within tolerance of itself only", c, b2s(want), b2s(got))
+		}
 		return got
 	}
 	// exact distance and tolerance
@@ -123,12 +145,19 @@ func runRounded(f lib.Flags, res *lib.Result, drv *lib.Driver, ms *monitors) {
 	var inputs []any
 	var nontriv []bool
 	add := func(what string, exact *big.Rat, code float64) {
-		if math.IsInf(code, 0) || math.IsNaN(code) {
+		if math.IsNaN(code) {
 			return
 		}
 		lines = append(lines, fmt.Sprintf("rne %s %s", exact.Num().String(), exact.Denom().String()))
-		codes = append(codes, ratOfFloat(code).String())
 		inputs = append(inputs, map[string]any{"op": "rne", "what": what, "exact": exact.String(), "code": encFloat(code)})
+		if math.IsInf(code, 0) {
+			// the hardware overflowed: rne64 (exponent unbounded) must land beyond the largest float
+			codes = append(codes, "overflow")
+			nontriv = append(nontriv, true)
+			rt.Count(what + ":overflow")
+			return
+		}
+		codes = append(codes, ratOfFloat(code).String())
 		nontriv = append(nontriv, ratOfFloat(code).Cmp(exact) != 0)
 		rt.Count(what + ":" + map[bool]string{true: "rounds", false: "exact"}[ratOfFloat(code).Cmp(exact) != 0])
 	}
@@ -146,6 +175,9 @@ func runRounded(f lib.Flags, res *lib.Result, drv *lib.Driver, ms *monitors) {
 		case 2:
 			a := g.roundingFloat()
 			b := nudgeUlps(a*(1+decimalFractions[g.r.Intn(len(decimalFractions))]), g.r.Intn(5)-2)
+			if !finite(b) {
+				b = a
+			}
 			if i%2 == 0 {
 				add("sub-near", new(big.Rat).Sub(ratOfFloat(a), ratOfFloat(b)), a-b)
 			} else {
@@ -179,7 +211,7 @@ func runRounded(f lib.Flags, res *lib.Result, drv *lib.Driver, ms *monitors) {
 
 	// 2. the comparers in rounded arithmetic
 	tie := res.Tie("rounded-arithmetic", "K1",
-		"the rounding inputs of the ieee tier (FloatValueApprox with decimal fractions/margins, y on the rounding boundary moved by -2..2 ulps; DurationValueWithinP on int64 durations beyond 2^53 and on the percentage boundary) against the model the theorems of PropsRounded.lean are about: floatApproxR rne64 / durWithinPR rne64 — exact rational arithmetic with rne64 applied where binary64 rounds, operation by operation as in the code. Every case also goes through the monitor (math/big): a pair within the exact tolerance is never rejected, an accepted pair beyond it is beyond by less than a rounding step, symmetric, reflexive. Non-trivial: distinct inputs")
+		"the rounding inputs of the ieee tier (FloatValueApprox with decimal fractions/margins, y on the rounding boundary moved by -2..2 ulps; DurationValueWithinP on int64 durations beyond 2^53 and on the percentage boundary) against the model the theorems of PropsRounded.lean are about: floatValueApproxR rne64 maxFloat64 (the whole comparer: exact rational arithmetic with rne64 applied where binary64 rounds, overflow to ±Inf beyond the largest float, operation by operation as in the code) / durWithinPR rne64. Every case also goes through the monitor (math/big): a pair within the exact tolerance is never rejected, an accepted pair beyond it is beyond by less than a rounding step, symmetric, reflexive. Non-trivial: distinct inputs")
 	lines = lines[:0]
 	for _, c := range roundingCases {
 		lines = append(lines, c.line())
@@ -191,10 +223,9 @@ func runRounded(f lib.Flags, res *lib.Result, drv *lib.Driver, ms *monitors) {
 	}
 	for i, c := range roundingCases {
 		got := c.monitor(ms)
-		c.Op = "fround"
-		if ans[i] == "overflow" {
-			tie.Count("overflow-not-modelled")
-			continue
+		c = c.sync()
+		if !c.DP && (math.IsInf(c.X-c.Y, 0) || math.IsInf(c.Fr*math.Min(math.Abs(c.X), math.Abs(c.Y)), 0)) {
+			tie.Count("fa:overflow")
 		}
 		tie.Record(lines[i], true, c, ans[i], b2s(got))
 		tie.Count(map[bool]string{true: "dp", false: "fa"}[c.DP] + ":" + ans[i])
